@@ -3045,7 +3045,7 @@ class Mailbox:
         - `name`: The name of the mailbox to delete
         - `server`: The user server object
         """
-        if name == "inbox":
+        if name.lower() == "inbox":
             raise InvalidMailbox("You are not allowed to delete the inbox")
 
         mbox = await server.get_mailbox(name)
@@ -3181,6 +3181,8 @@ class Mailbox:
 
         # The mailbox we are moving to must not exist.
         #
+        if new_name.lower() == "inbox":
+            raise MailboxExists(f"Destination mailbox '{new_name}' exists")
         try:
             server.mailbox.get_folder(new_name)
         except NoSuchMailboxError:
